@@ -1,6 +1,7 @@
 """C14 — dispatch I/O delivers every byte once, in order; each operation completes once."""
 import subprocess, re
 from common import run_lines
+from tracecheck import run_traces
 
 META = {
     "text": "Lean theorems over a model of a stream read operation of io.c (buffer sizing, read() outcome, deliver_data flags, stream-handler result switch, dispose) "
@@ -14,7 +15,7 @@ META = {
     "technique": "Lean 4 proof (invariant over all outcome sequences, case analysis by simp/omega) + replay of real read() outcome sequences + L-api oracle with short-write injection",
 }
 
-THEOREMS = ["C14.read_conservation", "C14.read_at_most_length", "C14.step_spec", "C14.read_len_pos", "C14.write_conservation", "C14.write_len_pos"]
+THEOREMS = ["C14.read_conservation", "C14.read_at_most_length", "C14.step_spec", "C14.read_len_pos", "C14.write_conservation", "C14.write_len_pos", "C14.barrier_runs_between", "C14.barrier_replay_sound"]
 
 
 def gen_lines(r, n):
@@ -97,7 +98,7 @@ def io_oracle(line, out):
 def run(ctx):
     ctx.proof("DispatchVerif.Props.C14", THEOREMS)
     ctx.assumptions += ["read() returns between 1 and the requested number of bytes, 0 at end of file, or fails (kernel contract)",
-                        "write path and channel orchestration: observed, not proved", "the DOP_DELIVER interval timer is not modelled (no interval set by the harness)"]
+                        "channel orchestration other than the barrier clause (submission order of stream operations, close, cleanup): observed, not proved", "the DOP_DELIVER interval timer is not modelled (no interval set by the harness)"]
     drv = ctx.driver()
     h = ctx.harness("io", extra=["-ldl"])
     lines = gen_lines(ctx.rng.fork("io"), 6000 if ctx.thorough else 700)
@@ -191,6 +192,10 @@ def run(ctx):
         else:
             ctx.cov["layers"].setdefault("oracle io", {})["run%d" % s] = out.strip()
     ctx.count("oracle io", runs * 30, runs * 30, samples=[{"cmd": "c14_io %d 30" % (ctx.seed * 100)}])
+    # barrier orchestration: the recorded history of a channel (submissions, barrier-group enter / leave, barrier-queue suspend /
+    # resume, barrier blocks) replayed through IoCh.exec; the barrier clause evaluated on the same runs
+    run_traces(ctx, "tr_iobar", [[ctx.seed * 10 + i, 1500 if ctx.thorough else 300] for i in range(3 if ctx.thorough else 2)], "iobar",
+               r"explained-by-IoCh.exec (\d+)", "L-trace io barrier", "iobar", timeout=200)
 
 
 def replay(ctx, obj):
